@@ -109,7 +109,12 @@ func (P *Prog) verifyFunc(key string, c11 bool) (res *FuncResult) {
 	env := x.newEnv(fr, st, fn.Blocks[0])
 	if spec != nil {
 		for _, c := range spec.Requires {
-			x.em.assume(x.evalBool(env, c.Expr))
+			lz := x.lazyApps
+			p, alt := x.evalBoolAlt(env, c.Expr)
+			x.em.assume(p)
+			if alt != "" && x.lazyApps != lz {
+				x.em.assume(alt) // the equivalent form with opaque functions unfolded
+			}
 		}
 		for _, c := range spec.EntryAssumes {
 			x.em.assume(x.evalBool(env, c.Expr))
